@@ -13,7 +13,7 @@ OBLIGATIONS = [
        bounds="molecules of 1..3 atoms x 8 boundary coordinates at any atom/axis x charges {0,1,3,4,15} (thorough 0..15, both signs) x 8 bond type rotations x {auto, V2000, V3000} x {MOL, 2-record SDF with header and multi-part metadata keys, multi-line values}; atom/bond counts {50,999,1000} x {0,998,999,1000,1100}: V2000 only when counts fit, fixed-width lines, read back equal"),
     SX("sx_rdkit", "sx_c18", "ob_rdkit", cls="E", quick=300, parts=1,
        functions=["src/biotite/interface/rdkit/mol.py:to_mol/from_mol"],
-       bounds="molecules of 1..3 atoms, single/double/triple/quadruple bonds, charges, 1..3 models (conformers) through RDKit and back"),
+       bounds="molecules of 1..3 atoms, single/double/triple/quadruple bonds, charges, 1..3 models (conformers) through RDKit and back with add_hydrogen=False; 13 complete molecules (Kekule and aromatic six-rings with H / Cl / F substituents in both alternations, CO2, N2, CCl4, chloride, nitrate, HCN) x 1..2 models with DEFAULT options: nothing added, removed, reordered or retyped (the two Kekule forms of an aromatic ring are not distinguished)"),
     SX("sx_key_parts", "sx_c18", "ob_key_parts", cls="E", quick=100, parts=1,
        functions=["src/biotite/structure/io/mol/sdf.py:Metadata.Key.__post_init__/serialize/deserialize", "src/biotite/structure/io/mol/sdf.py:Metadata.serialize/deserialize"],
        bounds="all 256 combinations of field number {absent, 0, 1, 12} x name {absent, 3 names} x internal registry {absent, 0, 7, 123} x external registry {absent, '', 2 values}: an admitted key serialises to text that parses back to an equal key, alone and inside a metadata block"),
